@@ -32,14 +32,15 @@ theorem condProgram_of_facts (fin : Final) (recs : List Rec) (hgood : ∀ R ∈ 
         have hch : lookupChain fin.chains R.id = some (entriesOf [A]) := of_decide_eq_true hch0
         have hg : ChainGood [A] := hc ▸ hgood R (by rw [hrecs]; exact List.mem_cons_self ..)
         have hinv : Inv fin (Spec.Scope.globalCtx program) { sid := R.id, chain := [A] } := by
-          refine ⟨?_, ⟨_, _, rfl, rfl, rfl⟩, hch⟩
+          refine ⟨?_, rfl, hch⟩
           refine .root (hoistVal program) A hk (setEq_iff hset) ?_ hg
           intro n
           have e : tauN (tauFin fin) .global [] n = applyTable (rootTable fin) n := rfl
           rw [e, htab]
         simp only [condProgram, Bool.and_eq_true]
         refine ⟨?_, ?_⟩
-        · exact hoistFacts_cond hinv [] program hhoist
+        · rw [← hrecs] at hhoist
+          exact hoistFacts_cond recs hgood _ _ [] program hinv hhoist
         · rw [← hrecs] at hfacts
           exact condVal_of_facts recs hgood (Spec.Scope.globalCtx program) _ [] program hinv hfacts
 
